@@ -217,7 +217,11 @@ impl Session {
         if already_closed {
             return Ok(());
         }
+        #[cfg(feature = "verif")]
+        crate::verif::point("close.swapped").await;
         self.close_notify.notify_waiters();
+        #[cfg(feature = "verif")]
+        crate::verif::point("close.notified").await;
 
         // Close stream data receiver so process_stream_data exits
         // Close all streams and notify pending waiters
@@ -225,12 +229,16 @@ impl Session {
             let mut streams = self.streams.write().await;
             let mut receive_map = self.stream_receive_tx.write().await;
             for (stream_id, stream) in streams.drain() {
+                #[cfg(feature = "verif")]
+                crate::verif::point("close.drain").await;
                 stream.close_with_error(AnyTlsError::SessionClosed).await;
                 stream.notify_synack(Err(AnyTlsError::SessionClosed)).await;
                 receive_map.remove(&stream_id);
             }
         }
 
+        #[cfg(feature = "verif")]
+        crate::verif::point("close.before_writer").await;
         // Attempt to shutdown writer gracefully
         {
             let mut writer = self.writer.lock().await;
@@ -335,6 +343,8 @@ impl Session {
                 }
             };
             drop(reader);
+            #[cfg(feature = "verif")]
+            crate::verif::point("recv.after_read").await;
             tracing::trace!(
                 session_id = session_id,
                 "[Session] recv_loop: Reader lock released (iteration {})",
@@ -378,6 +388,8 @@ impl Session {
                     buffer_before_decode,
                     buffer.len()
                 );
+                #[cfg(feature = "verif")]
+                crate::verif::point("recv.before_dispatch").await;
                 self.handle_frame(frame).await?;
             }
             if frame_count == 0 && n > 0 {
@@ -437,6 +449,8 @@ impl Session {
                     data_len
                 );
 
+                #[cfg(feature = "verif")]
+                crate::verif::point("hf.push").await;
                 let receive_map = self.stream_receive_tx.read().await;
                 tracing::trace!(
                     session_id = session_id,
@@ -506,11 +520,15 @@ impl Session {
 
                     let stream = Arc::new(stream);
 
+                    #[cfg(feature = "verif")]
+                    crate::verif::point("hf.syn.before_maps").await;
                     {
                         let mut receive_map = self.stream_receive_tx.write().await;
                         receive_map.insert(stream_id, receive_tx);
                     }
 
+                    #[cfg(feature = "verif")]
+                    crate::verif::point("hf.syn.between_maps").await;
                     {
                         let mut streams = self.streams.write().await;
                         streams.insert(stream_id, stream.clone());
@@ -522,6 +540,8 @@ impl Session {
                         stream_id
                     );
 
+                    #[cfg(feature = "verif")]
+                    crate::verif::point("hf.syn.before_callback").await;
                     // Notify callback if set
                     if let Some(callback_guard) = &self.on_new_stream {
                         let callback = callback_guard.lock().await;
@@ -562,6 +582,8 @@ impl Session {
                         frame.stream_id
                     );
 
+                    #[cfg(feature = "verif")]
+                    crate::verif::point("hf.synack").await;
                     let streams = self.streams.read().await;
                     if let Some(stream) = streams.get(&frame.stream_id) {
                         // If data is present, it's an error message
@@ -608,8 +630,12 @@ impl Session {
                     "[Session] FIN received for stream {}, closing",
                     frame.stream_id
                 );
+                #[cfg(feature = "verif")]
+                crate::verif::point("hf.fin").await;
                 let mut streams = self.streams.write().await;
                 streams.remove(&frame.stream_id);
+                #[cfg(feature = "verif")]
+                crate::verif::point("hf.fin.between").await;
                 let mut receive_map = self.stream_receive_tx.write().await;
                 receive_map.remove(&frame.stream_id);
             }
@@ -706,6 +732,8 @@ impl Session {
                     "Unknown alert".to_string()
                 };
                 tracing::error!("[Session] Received Alert frame (fatal): {}", alert_msg);
+                #[cfg(feature = "verif")]
+                crate::verif::point("hf.alert").await;
                 // Close all streams
                 let mut streams = self.streams.write().await;
                 for (stream_id, stream) in streams.drain() {
@@ -717,6 +745,8 @@ impl Session {
                     tracing::debug!("[Session] Closed stream {} due to alert", stream_id);
                 }
                 drop(streams);
+                #[cfg(feature = "verif")]
+                crate::verif::point("hf.alert.after_drain").await;
                 // Mark session as closed
                 self.is_closed
                     .store(true, std::sync::atomic::Ordering::Relaxed);
@@ -730,6 +760,8 @@ impl Session {
                 );
 
                 // Send HeartResponse immediately
+                #[cfg(feature = "verif")]
+                crate::verif::point("hf.heartreq").await;
                 let response = Frame::control(Command::HeartResponse, frame.stream_id);
 
                 if let Err(e) = self.write_control_frame(response).await {
@@ -749,6 +781,8 @@ impl Session {
                     frame.stream_id
                 );
 
+                #[cfg(feature = "verif")]
+                crate::verif::point("hf.heartresp").await;
                 if let Some(heartbeat_state) = &self.heartbeat {
                     let mut last = heartbeat_state.last_received.lock().await;
                     *last = Instant::now();
@@ -776,6 +810,8 @@ impl Session {
             return Err(AnyTlsError::SessionClosed);
         }
 
+        #[cfg(feature = "verif")]
+        crate::verif::point("open.after_check").await;
         let stream_id = self
             .stream_id
             .fetch_add(1, std::sync::atomic::Ordering::SeqCst);
@@ -785,6 +821,8 @@ impl Session {
             self.is_client
         );
 
+        #[cfg(feature = "verif")]
+        crate::verif::point("open.after_id").await;
         // Create channels for this stream
         let (receive_tx, receive_rx) = mpsc::unbounded_channel();
 
@@ -801,6 +839,8 @@ impl Session {
             receive_map.insert(stream_id, receive_tx);
         }
 
+        #[cfg(feature = "verif")]
+        crate::verif::point("open.after_rx_insert").await;
         // Store the stream
         {
             let mut streams = self.streams.write().await;
@@ -809,6 +849,8 @@ impl Session {
 
         tracing::trace!("[Session] Stream {} stored in session", stream_id);
 
+        #[cfg(feature = "verif")]
+        crate::verif::point("open.after_insert").await;
         // Send SYN frame
         tracing::trace!("[Session] Sending SYN frame for stream {}", stream_id);
         let frame = Frame::control(Command::Syn, stream_id);
@@ -859,6 +901,8 @@ impl Session {
             buffer.len()
         );
 
+        #[cfg(feature = "verif")]
+        crate::verif::point("wf.before_buffering_load").await;
         // Check if buffering
         if self.buffering.load(std::sync::atomic::Ordering::Relaxed) {
             tracing::trace!(
@@ -866,6 +910,8 @@ impl Session {
                 frame_cmd,
                 frame_stream_id
             );
+            #[cfg(feature = "verif")]
+            crate::verif::point("wf.before_buffer_lock").await;
             let mut buf = self.buffer.lock().await;
             let old_len = buf.len();
             buf.extend_from_slice(&buffer);
@@ -877,6 +923,8 @@ impl Session {
             return Ok(());
         }
 
+        #[cfg(feature = "verif")]
+        crate::verif::point("wf.before_flush_lock").await;
         // Flush buffer if any
         {
             let mut buf = self.buffer.lock().await;
@@ -905,6 +953,8 @@ impl Session {
             }
         }
 
+        #[cfg(feature = "verif")]
+        crate::verif::point("wf.after_flush_block").await;
         // Log what we're about to send
         if buffer.len() >= 7 {
             tracing::info!(
@@ -932,6 +982,8 @@ impl Session {
                 "[Session] write_with_padding: Writing {} bytes without padding",
                 buffer.len()
             );
+            #[cfg(feature = "verif")]
+            crate::verif::point("wp.before_writer_nopad").await;
             let mut writer = self.writer.lock().await;
             if let Err(e) = writer.write_all(&buffer).await {
                 return Err(self.handle_io_error("write_without_padding", e).await);
@@ -950,16 +1002,22 @@ impl Session {
         let pkt = self
             .pkt_counter
             .fetch_add(1, std::sync::atomic::Ordering::SeqCst);
+        #[cfg(feature = "verif")]
+        crate::verif::point("wp.after_counter").await;
         let padding_factory = {
             let padding_guard = self.padding.read().await;
             padding_guard.clone()
         };
+        #[cfg(feature = "verif")]
+        crate::verif::point("wp.after_padding_read").await;
         let stop = padding_factory.stop();
 
         if pkt >= stop {
             // Stop padding after stop packets
             // Note: We should probably disable send_padding, but that requires mutable access
             // For now, just write directly
+            #[cfg(feature = "verif")]
+            crate::verif::point("wp.before_writer_stop").await;
             let mut writer = self.writer.lock().await;
             if let Err(e) = writer.write_all(&buffer).await {
                 return Err(self.handle_io_error("write_no_padding_stop", e).await);
@@ -975,6 +1033,8 @@ impl Session {
 
         // If no sizes defined, write directly
         if pkt_sizes.is_empty() {
+            #[cfg(feature = "verif")]
+            crate::verif::point("wp.before_writer_nosizes").await;
             let mut writer = self.writer.lock().await;
             if let Err(e) = writer.write_all(&buffer).await {
                 return Err(self.handle_io_error("write_no_padding_sizes", e).await);
@@ -985,6 +1045,8 @@ impl Session {
             return Ok(());
         }
 
+        #[cfg(feature = "verif")]
+        crate::verif::point("wp.before_writer").await;
         let mut writer = self.writer.lock().await;
 
         for size in pkt_sizes {
@@ -1157,6 +1219,8 @@ impl Session {
 
                 loop {
                     ticker.tick().await;
+                    #[cfg(feature = "verif")]
+                    crate::verif::point("hb.after_tick").await;
 
                     if session.is_closed() {
                         tracing::debug!(
@@ -1187,6 +1251,8 @@ impl Session {
                         break;
                     }
 
+                    #[cfg(feature = "verif")]
+                    crate::verif::point("hb.before_write").await;
                     if let Err(e) = session
                         .write_control_frame(Frame::control(Command::HeartRequest, 0))
                         .await
@@ -1257,6 +1323,8 @@ impl Session {
                 "[Session] process_stream_data: Waiting for data from streams (iteration {})",
                 iteration
             );
+            #[cfg(feature = "verif")]
+            crate::verif::point("psd.before_select").await;
             let result = tokio::select! {
                 biased;
                 _ = close_notify.notified() => {
@@ -1272,6 +1340,8 @@ impl Session {
 
             match result {
                 Some((stream_id, data)) => {
+                    #[cfg(feature = "verif")]
+                    crate::verif::point("psd.after_recv").await;
                     if self.is_closed() {
                         tracing::debug!(
                             session_id = session_id,
@@ -1352,6 +1422,31 @@ impl Session {
     /// Get peer version
     pub fn peer_version(&self) -> u8 {
         self.peer_version.load(std::sync::atomic::Ordering::Relaxed)
+    }
+
+    /// Number of streams in the session's stream table (verification accessor)
+    #[cfg(feature = "verif")]
+    pub async fn verif_stream_count(&self) -> usize {
+        self.streams.read().await.len()
+    }
+
+    /// Number of inbound stream queues registered in the session (verification accessor)
+    #[cfg(feature = "verif")]
+    pub async fn verif_receiver_count(&self) -> usize {
+        self.stream_receive_tx.read().await.len()
+    }
+
+    /// Stream ids present in either session table, sorted (verification accessor)
+    #[cfg(feature = "verif")]
+    pub async fn verif_stream_ids(&self) -> Vec<u32> {
+        let mut ids: Vec<u32> = self.streams.read().await.keys().copied().collect();
+        for id in self.stream_receive_tx.read().await.keys() {
+            if !ids.contains(id) {
+                ids.push(*id);
+            }
+        }
+        ids.sort_unstable();
+        ids
     }
 }
 
